@@ -58,15 +58,15 @@ theorem moveDelegation_frame (c : Cfg) (frm to : Addr) (s : State) (p) : Frame s
 
 theorem moveUbd_frame (c : Cfg) (frm to : Addr) (s : State) (p) : Frame s (moveUbd c frm to s p) := by
   unfold moveUbd
-  refine Frame.trans (b := { s with ubds := _, ubdIdx := _ }) ?_ (frame_foldl _ (fun s e => ?_) _ _)
-  · exact ⟨rfl, rfl, rfl, rfl, rfl, rfl, rfl, rfl, rfl, rfl, rfl, rfl, rfl, rfl, rfl, rfl, rfl, rfl, rfl, rfl⟩
-  · exact ⟨rfl, rfl, rfl, rfl, rfl, rfl, rfl, rfl, rfl, rfl, rfl, rfl, rfl, rfl, rfl, rfl, rfl, rfl, rfl, rfl⟩
+  refine Frame.trans (b := { s with ubds := _, ubdIdx := _ }) ?_
+    (Frame.trans (frame_foldl _ (fun s e => ?_) _ _) (frame_foldl _ (fun s e => ?_) _ _))
+  all_goals exact ⟨rfl, rfl, rfl, rfl, rfl, rfl, rfl, rfl, rfl, rfl, rfl, rfl, rfl, rfl, rfl, rfl, rfl, rfl, rfl, rfl⟩
 
 theorem moveRed_frame (c : Cfg) (frm to : Addr) (s : State) (p) : Frame s (moveRed c frm to s p) := by
   unfold moveRed
-  refine Frame.trans (b := { s with reds := _, redSrcIdx := _, redDstIdx := _ }) ?_ (frame_foldl _ (fun s e => ?_) _ _)
-  · exact ⟨rfl, rfl, rfl, rfl, rfl, rfl, rfl, rfl, rfl, rfl, rfl, rfl, rfl, rfl, rfl, rfl, rfl, rfl, rfl, rfl⟩
-  · exact ⟨rfl, rfl, rfl, rfl, rfl, rfl, rfl, rfl, rfl, rfl, rfl, rfl, rfl, rfl, rfl, rfl, rfl, rfl, rfl, rfl⟩
+  refine Frame.trans (b := { s with reds := _, redSrcIdx := _, redDstIdx := _ }) ?_
+    (Frame.trans (frame_foldl _ (fun s e => ?_) _ _) (frame_foldl _ (fun s e => ?_) _ _))
+  all_goals exact ⟨rfl, rfl, rfl, rfl, rfl, rfl, rfl, rfl, rfl, rfl, rfl, rfl, rfl, rfl, rfl, rfl, rfl, rfl, rfl, rfl⟩
 
 theorem stakingExecute_frame (c : Cfg) (s : State) (frm to : Addr) : Frame s (stakingExecute c s frm to) := by
   unfold stakingExecute
@@ -79,7 +79,7 @@ theorem exec_delIdxG (c : Cfg) (hc : c.rewriteDelIdx = true) (s : State) (frm to
     (stakingExecute c s frm to).delIdx = (entriesOf s.dels frm).foldl (idxStepG Prod.mk frm to) s.delIdx := by
   rw [stakingExecute_eq]
   refine (foldl_keep (fun s : State => s.delIdx) _ (fun s p => by
-    unfold moveRed; exact foldl_keep (fun s : State => s.delIdx) _ (by intros; rfl) _ _) _ _).trans ?_
+    unfold moveRed; exact (foldl_keep (fun s : State => s.delIdx) _ (by intros; rfl) _ _).trans (foldl_keep (fun s : State => s.delIdx) _ (by intros; rfl) _ _)) _ _).trans ?_
   unfold exec2
   refine (foldl_keep (fun s : State => s.delIdx) _ (moveUbd_keep _ c frm to (fun _ _ _ _ _ => rfl)) _ _).trans ?_
   exact foldl_proj (fun s : State => s.delIdx) (moveDelegation c frm to) (idxStepG Prod.mk frm to)
@@ -89,10 +89,10 @@ theorem exec_ubdIdxG (c : Cfg) (s : State) (frm to : Addr) :
     (stakingExecute c s frm to).ubdIdx = (entriesOf s.ubds frm).foldl (idxStepG Prod.mk frm to) s.ubdIdx := by
   rw [stakingExecute_eq]
   refine (foldl_keep (fun s : State => s.ubdIdx) _ (fun s p => by
-    unfold moveRed; exact foldl_keep (fun s : State => s.ubdIdx) _ (by intros; rfl) _ _) _ _).trans ?_
+    unfold moveRed; exact (foldl_keep (fun s : State => s.ubdIdx) _ (by intros; rfl) _ _).trans (foldl_keep (fun s : State => s.ubdIdx) _ (by intros; rfl) _ _)) _ _).trans ?_
   unfold exec2
   refine (foldl_proj (fun s : State => s.ubdIdx) (moveUbd c frm to) (idxStepG Prod.mk frm to) (fun s p => by
-    unfold moveUbd; exact foldl_keep (fun s : State => s.ubdIdx) _ (by intros; rfl) _ _) _ _).trans ?_
+    unfold moveUbd; exact (foldl_keep (fun s : State => s.ubdIdx) _ (by intros; rfl) _ _).trans (foldl_keep (fun s : State => s.ubdIdx) _ (by intros; rfl) _ _)) _ _).trans ?_
   have h1 : (exec1 c s frm to).ubds = s.ubds := exec1_keep (fun s => s.ubds) c s frm to (fun _ _ => rfl)
   have h2 : (exec1 c s frm to).ubdIdx = s.ubdIdx := exec1_keep (fun s => s.ubdIdx) c s frm to (fun _ _ => rfl)
   rw [h1, h2]; rfl
@@ -101,7 +101,7 @@ theorem exec_delsG (c : Cfg) (s : State) (frm to : Addr) :
     (stakingExecute c s frm to).dels = (entriesOf s.dels frm).foldl (rekeyStep frm to) s.dels := by
   rw [stakingExecute_eq]
   refine (foldl_keep (fun s : State => s.dels) _ (fun s p => by
-    unfold moveRed; exact foldl_keep (fun s : State => s.dels) _ (by intros; rfl) _ _) _ _).trans ?_
+    unfold moveRed; exact (foldl_keep (fun s : State => s.dels) _ (by intros; rfl) _ _).trans (foldl_keep (fun s : State => s.dels) _ (by intros; rfl) _ _)) _ _).trans ?_
   unfold exec2
   refine (foldl_keep (fun s : State => s.dels) _ (moveUbd_keep _ c frm to (fun _ _ _ _ _ => rfl)) _ _).trans ?_
   exact foldl_proj (fun s : State => s.dels) (moveDelegation c frm to) (rekeyStep frm to) (fun _ _ => rfl) _ _
@@ -110,10 +110,10 @@ theorem exec_ubdsG (c : Cfg) (s : State) (frm to : Addr) :
     (stakingExecute c s frm to).ubds = (entriesOf s.ubds frm).foldl (rekeyStep frm to) s.ubds := by
   rw [stakingExecute_eq]
   refine (foldl_keep (fun s : State => s.ubds) _ (fun s p => by
-    unfold moveRed; exact foldl_keep (fun s : State => s.ubds) _ (by intros; rfl) _ _) _ _).trans ?_
+    unfold moveRed; exact (foldl_keep (fun s : State => s.ubds) _ (by intros; rfl) _ _).trans (foldl_keep (fun s : State => s.ubds) _ (by intros; rfl) _ _)) _ _).trans ?_
   unfold exec2
   refine (foldl_proj (fun s : State => s.ubds) (moveUbd c frm to) (rekeyStep frm to) (fun s p => by
-    unfold moveUbd; exact foldl_keep (fun s : State => s.ubds) _ (by intros; rfl) _ _) _ _).trans ?_
+    unfold moveUbd; exact (foldl_keep (fun s : State => s.ubds) _ (by intros; rfl) _ _).trans (foldl_keep (fun s : State => s.ubds) _ (by intros; rfl) _ _)) _ _).trans ?_
   have h1 : (exec1 c s frm to).ubds = s.ubds := exec1_keep (fun s => s.ubds) c s frm to (fun _ _ => rfl)
   rw [h1]; rfl
 
@@ -171,6 +171,7 @@ theorem moveUbd_unbId (c : Cfg) (hc : c.rewriteUnbId = true) (frm to : Addr) (s 
     (moveUbd c frm to s p).unbId =
       (p.2.map (fun e => (e.2.2, ((to, p.1.2, none) : Addr × Val × Option Val)))).foldl (fun u w => put u w.1 w.2) s.unbId := by
   unfold moveUbd
+  refine (foldl_keep (fun s : State => s.unbId) _ (by intros; rfl) _ _).trans ?_
   rw [List.foldl_map]
   exact foldl_proj (fun s : State => s.unbId) _
     (fun u (e : Time × Nat × Nat) => put u e.2.2 ((to, p.1.2, none) : Addr × Val × Option Val))
@@ -181,6 +182,7 @@ theorem moveRed_unbId (c : Cfg) (hc : c.rewriteUnbId = true) (frm to : Addr) (s 
       (p.2.map (fun e => (e.2.2, ((to, p.1.2.1, some p.1.2.2) : Addr × Val × Option Val)))).foldl
         (fun u w => put u w.1 w.2) s.unbId := by
   unfold moveRed
+  refine (foldl_keep (fun s : State => s.unbId) _ (by intros; rfl) _ _).trans ?_
   rw [List.foldl_map]
   exact foldl_proj (fun s : State => s.unbId) _
     (fun u (e : Time × Nat × Nat) => put u e.2.2 ((to, p.1.2.1, some p.1.2.2) : Addr × Val × Option Val))
@@ -423,7 +425,7 @@ theorem map_swS_id {β : Type} (l : List (β × Addr)) (h : ∀ p ∈ l, p.2 ≠
 /-- **the state after an accepted migration is the swapped image of the state before it** (with the target's prior
 coins handed to the source) -/
 theorem sim_init (c : Cfg) (hc1 : c.rewriteDelIdx = true) (hc2 : c.rewriteUnbId = true) (hb : c.bankAll = true)
-    (s : State) (hne : frm ≠ to)
+    (hq1 : c.qEveryEntry = true) (hq2 : c.qByDelegator = true) (s : State) (hne : frm ≠ to)
     (hto : (∀ p ∈ s.dels, p.1.1 ≠ to) ∧ (∀ p ∈ s.ubds, p.1.1 ≠ to) ∧ (∀ p ∈ s.reds, p.1.1 ≠ to))
     (wf : MigWF s frm to) :
     Sim frm to (bankExecute c s to frm) (setRecord c (stakingExecute c (bankExecute c s frm to) frm to) frm to) := by
@@ -479,11 +481,11 @@ theorem sim_init (c : Cfg) (hc1 : c.rewriteDelIdx = true) (hc2 : c.rewriteUnbId 
   case si => exact startInfo_ExtRel c hne (bankExecute c s frm to) wfB
   case ubdQ =>
     show (stakingExecute c (bankExecute c s frm to) frm to).ubdQ = _
-    rw [exec_ubdQ]
+    rw [exec_ubdQ c hq1 hq2]
     exact queue_exact hne s.ubds s.ubdQ wf.ubdQ_nodup wf.ubdQ_of wf.ubdQ_to
   case redQ =>
     show (stakingExecute c (bankExecute c s frm to) frm to).redQ = _
-    rw [exec_redQ]
+    rw [exec_redQ c hq1 hq2]
     exact queue_exact hne s.reds s.redQ wf.redQ_nodup wf.redQ_of wf.redQ_to
   case unbId => exact unbId_ExtRel c hc2 (bankExecute c s frm to) wfB
   case wd =>
